@@ -99,6 +99,19 @@ type TrShape struct{ S Shape } // transform whose serial form is the keyed union
 type Disc struct{ V string }   // a union member with a transform entry of its own
 type TrPtr struct{ V string }  // transform whose serial form is a pointer (*TrWire)
 
+// real Go embedding, by value and by pointer: the fields of EmbIn and EmbPt are promoted into EmbOut, and a
+// hand-built struct map names them by their promoted names (AddField("P", ...))
+type EmbIn struct {
+	P string
+	Q int64
+}
+type EmbPt struct{ R int64 }
+type EmbOut struct {
+	EmbIn
+	*EmbPt
+	K string
+}
+
 type Shape interface{ isShape() }
 type Circle struct{ R int64 }
 type Square struct {
@@ -139,6 +152,9 @@ var zoo = []zooType{
 	{23, reflect.TypeOf(TrShape{}), "(st 23)", []string{"(if 30)"}},
 	{24, reflect.TypeOf(Disc{}), "(st 24)", []string{"s"}},
 	{25, reflect.TypeOf(TrPtr{}), "(st 25)", []string{"s"}},
+	{26, reflect.TypeOf(EmbIn{}), "(st 26)", []string{"s", "i64"}},
+	{27, reflect.TypeOf(EmbPt{}), "(st 27)", []string{"i64"}},
+	{28, reflect.TypeOf(EmbOut{}), "(st 28)", []string{"(st 26)", "(pt (st 27))", "s"}},
 	{20, reflect.TypeOf(Circle{}), "(st 20)", []string{"i64"}},
 	{21, reflect.TypeOf(Square{}), "(st 21)", []string{"s", "(pt i)"}},
 	{30, reflect.TypeOf((*Shape)(nil)).Elem(), "(if 30)", nil},
